@@ -600,3 +600,24 @@ func workerFieldRead(w *ssa.Function, p *ssa.Parameter, fi int) ssa.Value {
 	}
 	return nil
 }
+
+// isStatusValue: v is a node's recorded status (a read of State.Status, directly,
+// through an accessor, or - inside a predicate on the status value itself, as in
+// `func (s NodeStatus) passed() bool` - the parameter bound to such a read).
+func (e *Env) isStatusValue(v ssa.Value) bool {
+	for d := 0; d < 3 && v != nil; d++ {
+		if p, ok := e.C.PathOf(v); ok && p.Suffix("State.Status") {
+			return true
+		}
+		pr, isP := ir.Resolve(v).(*ssa.Parameter)
+		if !isP {
+			if dv := ir.Deep(v); dv != ir.Resolve(v) && dv != v {
+				v = dv
+				continue
+			}
+			return false
+		}
+		v = ir.Bound(pr)
+	}
+	return false
+}
